@@ -304,6 +304,9 @@ class TradingEnv(gymnasium.Env):
                 "The current episode has ended. To start a new episode use "
                 "TradingEnv.reset()."
             )
+        # Contracts share a process-wide clock: make sure it shows the time of
+        # this environment, in case another environment has moved it.
+        AbstractContract.now = self._now
         self._queue_actions.appendleft(action)
         action = self._queue_actions.pop()
         self._process_latent_events()
